@@ -1,6 +1,7 @@
 (* C03 — A reforming calendar is Julian before the reformation, Gregorian from it on. *)
 From JV Require Import Sem Gen Spec SpecX.
 From JV.Proofs Require Import SpecFacts Cal Core AtJdn Boundary.
+Require JV.Proofs.Glue_C03_core.
 Open Scope Z_scope.
 
 (* every day below r carries its proleptic-Julian label and is Old Style; every day from r on carries its
@@ -9,43 +10,29 @@ Theorem C03_julian_before_gregorian_from : forall r j, ValidR r -> in_i32 j ->
   exists d, Calendar_at_jdn (cal_of (CR r)) j = Ret d /\
     (Date_f_year d, Month_discr (Date_f_month d), Date_f_day d) = (if j <? r then jlabel j else glabel j) /\
     Date_is_julian d = Ret (j <? r) /\ Date_is_gregorian d = Ret (negb (j <? r)).
-Proof.
-  intros r j V Hj. destruct (at_jdn_label (CR r) j V Hj) as (d & E & L & _).
-  exists d. split; [exact E|]. split; [exact L|].
-  rewrite (at_jdn_ok (CR r) j V Hj) in E. inversion E; subst d. split; [apply (is_julian_ok (CR r) j)|apply (is_gregorian_ok (CR r) j)].
-Qed.
+Proof. exact JV.Proofs.Glue_C03_core.C03_julian_before_gregorian_from_lemma. Qed.
 Print Assumptions C03_julian_before_gregorian_from.
 
 (* the advertised boundary dates are, as whole records, the dates of day r-1 and day r *)
 Theorem C03_boundary_dates : forall r, ValidR r ->
   exists d1 d2, Calendar_at_jdn (cal_of (CR r)) (r - 1) = Ret d1 /\ Calendar_at_jdn (cal_of (CR r)) r = Ret d2 /\
     Calendar_last_julian_date (cal_of (CR r)) = Ret (Some d1) /\ Calendar_first_gregorian_date (cal_of (CR r)) = Ret (Some d2).
-Proof.
-  intros r V. exists (date_of (CR r) (r - 1)), (date_of (CR r) r). unfold ValidR in V.
-  split; [apply at_jdn_ok; [exact V|range]|]. split; [apply at_jdn_ok; [exact V|range]|].
-  split; [exact (last_julian_date_ok (CR r) V)|exact (first_gregorian_date_ok (CR r) V)].
-Qed.
+Proof. exact JV.Proofs.Glue_C03_core.C03_boundary_dates_lemma. Qed.
 Print Assumptions C03_boundary_dates.
 Theorem C03_proleptic_have_no_boundary :
   Calendar_last_julian_date Calendar_JULIAN = Ret None /\ Calendar_first_gregorian_date Calendar_JULIAN = Ret None /\
   Calendar_last_julian_date Calendar_GREGORIAN = Ret None /\ Calendar_first_gregorian_date Calendar_GREGORIAN = Ret None.
-Proof. repeat split; reflexivity. Qed.
+Proof. exact JV.Proofs.Glue_C03_core.C03_proleptic_have_no_boundary_lemma. Qed.
 Print Assumptions C03_proleptic_have_no_boundary.
 
 (* the calendar only ever skips forward *)
 Theorem C03_skips_forward : forall r, ValidR r -> lex_lt (jlabel (r - 1)) (glabel r).
-Proof.
-  intros r V. pose proof (skips_forward r V) as L. unfold lbl in L. cbn [is_old] in L.
-  replace (r - 1 <? r) with true in L by lia. replace (r <? r) with false in L by lia. exact L.
-Qed.
+Proof. exact JV.Proofs.Glue_C03_core.C03_skips_forward_lemma. Qed.
 Print Assumptions C03_skips_forward.
 
 Theorem C03_convert_to : forall c c' j, ValidCal c -> ValidCal c' -> in_i32 j ->
   exists d d', Calendar_at_jdn (cal_of c) j = Ret d /\ Calendar_at_jdn (cal_of c') j = Ret d' /\ Date_convert_to d (cal_of c') = Ret d'.
-Proof.
-  intros c c' j V V' Hj. exists (date_of c j), (date_of c' j).
-  split; [apply at_jdn_ok; assumption|]. split; [apply at_jdn_ok; assumption|apply convert_to_ok; assumption].
-Qed.
+Proof. exact JV.Proofs.Glue_C03_core.C03_convert_to_lemma. Qed.
 Print Assumptions C03_convert_to.
 
 Example C03_ex : ValidR 2299161 /\ jlabel 2299160 = (1582, 10, 4) /\ glabel 2299161 = (1582, 10, 15).
